@@ -35,3 +35,9 @@ Proof.
   split; [exact gen_predictor_is_model|]. split; [exact gen_initial_is_model|].
   repeat (split; [reflexivity|]). split; [exact gen_masks_are_and16|reflexivity].
 Qed.
+
+(* jdlhuff.c / jddiffct.c follow the suspension protocol the model
+   (decode_mcus_susp, resume_calls) is written from *)
+Lemma gen_suspension_facts :
+  gen_bitread_save_per_mcu = true /\ gen_suspend_returns_mcu_num = true /\ gen_resume_at_mcu_ctr = true.
+Proof. repeat split; reflexivity. Qed.
